@@ -810,10 +810,36 @@ def table_roundtrip():
     endpattern = importlib.util.module_from_spec(spec)
     spec.loader.exec_module(endpattern)
     shape, alts = endpattern.end_alternatives()
-    from reuse.comment import _all_style_classes
-    want = len({s.MULTI_LINE.end for s in _all_style_classes() if s.MULTI_LINE.end}) + 3
-    if len(alts) != want:
-        return "END pattern has %d alternatives, the style table + special endings give %d" % (len(alts), want)
+    # independent count: split the pattern *text* on top-level, unescaped '|' (shape 1) or on ')*(?:' (shape 0)
+    from reuse import extract
+    text = extract._END_PATTERN
+    want = None
+    if text.startswith("(?:") and text.endswith(")*$"):
+        inner = text[3:-3]
+        depth, n, i, in_cls = 0, 1, 0, False
+        while i < len(inner):
+            c = inner[i]
+            if c == "\\":
+                i += 2
+                continue
+            if in_cls:
+                in_cls = c != "]"
+            elif c == "[":
+                in_cls = True
+            elif c == "(":
+                depth += 1
+            elif c == ")":
+                depth -= 1
+                if depth < 0:       # shape 0: ')*(?:' closes one starred alternative and opens the next
+                    n += 1
+                    depth = 0
+                    i += len(")*(?:") - 1
+            elif c == "|" and depth == 0:
+                n += 1
+            i += 1
+        want = n
+    if want is not None and len(alts) != want:
+        return "generated END table has %d alternatives, the pattern text has %d" % (len(alts), want)
     got = run_driver(["endshape"])[0]
     if got != str(shape):
         return "generated END shape %s, driver says %s" % (shape, got)
